@@ -59,6 +59,14 @@ TP1Late == /\ IsEv("P1Late")
            /\ Trace[l].ok = FALSE
            /\ ToDb(Trace[l].db) = db /\ Trace[l].extra = 0
 
+\* the rollback read undo_log before phase one flushed and wrote its marker after phase one committed: phase one
+\* succeeded; the delivery refused and changed nothing, or compensated; the log is never left beside 'rollbacked'
+TP1Race == /\ IsEv("P1Race")
+           /\ Trace[l].ok = TRUE /\ Trace[l].extra = 0 /\ Trace[l].idle = TRUE
+           /\ P1Raced(ToStmts(Trace[l].stmts), Trace[l].rbstatus)
+           /\ db' = ToDb(Trace[l].db)
+           /\ undo'[nbr + 1] = Trace[l].undo
+
 TForeign == /\ IsEv("Foreign")
             /\ Foreign(Trace[l].key, ToRow(Trace[l].row))
             /\ db' = ToDb(Trace[l].db)
@@ -114,7 +122,7 @@ TSilent == /\ (StartRollback \/ NextBranch \/ GiveUp)
 TEnd   == IsEv("End") /\ UNCHANGED vars
 TAbort == IsEv("Abort") /\ UNCHANGED vars
 
-TraceNext == TP1 \/ TP1Late \/ TForeign \/ TRb \/ TSilent \/ TEnd \/ TAbort \/ TImages \/ TRefusedPk \/ TRefused
+TraceNext == TP1 \/ TP1Late \/ TP1Race \/ TForeign \/ TRb \/ TSilent \/ TEnd \/ TAbort \/ TImages \/ TRefusedPk \/ TRefused
 TraceSpec == TraceInit /\ [][TraceNext]_tvars
 
 Invs == [Exact |-> Exact, Honest |-> Honest]
